@@ -182,6 +182,7 @@ def micro_stream(drv, rng, n, rep):
     finally:
         shutil.rmtree(tmp, ignore_errors=True)
     pagename_requests(rng, max(120, n // 4), reqs, exp)
+    graphnode_requests(rng, max(150, n // 4), reqs, exp)
     got = drv.batch(reqs)
     bad = 0
     for r, e, g in zip(reqs, exp, got):
@@ -241,6 +242,41 @@ def pagename_requests(rng, n, reqs, exp):
         link = relurl(str(node.url), out / frm / "x.html")
         reqs.append(["c09.pagename", loc, stem, frm or "."])
         exp.append([os.path.relpath(node.url, out), os.path.relpath(pg.outfile, out), str(pg.loc), link])
+
+
+def graphnode_requests(rng, n, reqs, exp):
+    """Round 6: the real `BaseNode.__init__` on fake entities - every combination of (made from text, has `external_url`,
+    URL / no URL / empty URL, visible, is a binding, its type visible) - vs `c09.graphnode` (regenerated prefix and gates)."""
+    from types import SimpleNamespace
+    import ford.graphs as fg
+    from ford.sourceform import FortranBoundProcedure
+
+    urls = ["module/m.html", "proc/p~2.html", "type/t.html#boundprocedure-b", "interface/operator(+).html", None, ""]
+    for _ in range(n):
+        fromstr, ext, bound = rng.random() < 0.2, rng.random() < 0.2, rng.random() < 0.3
+        vis, pvis, u = rng.random() < 0.7, rng.random() < 0.6, rng.choice(urls)
+        if fromstr:
+            href = rng.choice(["https://example.org/doc/module/m.html", "../elsewhere/x.html"])
+            obj = rng.choice([f"<a href='{href}'>name</a>", f'<a href="{href}">name</a>', "plainname"])
+            node = fg.BaseNode(obj, SimpleNamespace(parent_dir="../"))
+            reqs.append(["c09.graphnode", "1", "0", "-" if obj == "plainname" else href, "1", "0", "1"])
+            exp.append([str(node.attribs.get("URL", "-"))])
+            continue
+        d = dict(ident="x", name="x", visible=vis)
+        if ext:
+            d["external_url"] = "https://example.org/doc"
+        if bound:
+            o = FortranBoundProcedure.__new__(FortranBoundProcedure)
+            o.__dict__.update(d)
+            o.parent = SimpleNamespace(visible=pvis)
+        else:
+            o = SimpleNamespace(**d)
+        o.get_dir = lambda: "module"
+        o.get_url = lambda u=u: u
+        node = fg.BaseNode(o, SimpleNamespace(parent_dir="../"))
+        reqs.append(["c09.graphnode", "0", "1" if ext else "0", "-" if u is None else u, "1" if vis else "0", "1" if bound else "0",
+                     "1" if pvis else "0"])
+        exp.append([str(node.attribs.get("URL", "-"))])
 
 
 # ------------------------------------------------------------------ one site (runs in a worker process)
@@ -686,6 +722,7 @@ def run_site(args):
     res = {"k": k, "shape_kind": P["shape"], "opts": P["opts"], "has_pages": bool(P["pages"]), "P": P if keep else None,
            "location": P.get("location", "plain"), "doc_style": {x: P["links"].get(x) for x in ("para_rate", "summary_rate", "list_rate")}}
     _LAST["md"] = []
+    _LAST["graph_nodes"] = set()
     _LAST.pop("md_exc", None)
     _LAST.pop("doc", None)
     _LAST.pop("aliases", None)
@@ -752,6 +789,9 @@ def run_site(args):
         #            disk) and what lies below <out>/page; assets: the settings dictionary the templates saw
         doc = _LAST.get("doc")
         res["page_nodes"], res["page_tree_files"], res["abs_copy_items"] = observe_pages(doc, out, site)
+        # ---------- graphs: the nodes BaseNode.__init__ made (distinct observations), and the pages that carry an inline graph
+        res["graph_nodes"] = sorted(_LAST.get("graph_nodes", ()))
+        res["graph_pages"] = sorted({lk["page"] for lk in site.links if lk["attr"] == "xlink:href" and lk["page"].endswith(".html")})
         res["asset_env"] = observe_assets(doc)
         res["aliases"] = _LAST.get("aliases")
         res["asset_files"] = sorted(f for f in site.files if "/" not in f or f.split("/", 1)[0] in ("css", "js", "webfonts", "search"))
@@ -971,6 +1011,25 @@ def _install_hook():
         return orig_mm(self, *a, **kw)
 
     fm.MetaMarkdown.__init__ = mm_init
+    # round 6: every graph node the run makes: what BaseNode.__init__ looked at and the URL attribute it set
+    import ford.graphs as fg
+    orig_node = fg.BaseNode.__init__
+
+    def node_init(self, obj, graph_data, *a, **kw):
+        r = orig_node(self, obj, graph_data, *a, **kw)
+        try:
+            par = getattr(obj, "parent", None)
+            _LAST.setdefault("graph_nodes", set()).add((
+                "1" if getattr(self, "fromstr", False) else "0", "1" if hasattr(obj, "external_url") else "0",
+                "-" if getattr(self, "url", None) is None else str(self.url),
+                "1" if getattr(obj, "visible", True) else "0",
+                "1" if isinstance(obj, sf.FortranBoundProcedure) else "0", "1" if getattr(par, "visible", True) else "0",
+                str(self.attribs.get("URL", "-")), str(getattr(graph_data, "parent_dir", "?"))))
+        except Exception as e:  # noqa
+            _LAST.setdefault("md_exc", []).append(f"graph node hook: {type(e).__name__}: {e}")
+        return r
+
+    fg.BaseNode.__init__ = node_init
     fp.Project._c09_hooked = True
 
 
@@ -1083,6 +1142,25 @@ def compare_site(r, drv_answers, rep, stats):
                            {"stream": "site", "case": k, "seed": r.get("seed"), "model_only": sorted(model_files - impl_files)[:20],
                             "impl_only": sorted(impl_files - model_files)[:20],
                             "pages": [{x: n[x] for x in ("loc", "stem", "copy_subdir", "files")} for n in r["page_nodes"]][:12]})
+    # --- round 6: the URL attribute of every graph node the run made vs the model's `nodeUrl` on what BaseNode.__init__ looked at;
+    #     the pages that carry an inline graph lie where the model's host templates put them (one directory below the root)
+    for g, ans in zip(r.get("graph_nodes", []), drv_answers.get("graphnode", [])):
+        stats["graph_nodes"] += 1
+        if g[6] != "-":
+            stats["graph_nodes_with_url"] += 1
+        if g[3] == "0" or (g[4] == "1" and g[5] == "0"):
+            stats["graph_nodes_hidden"] += 1
+        if list(ans) != [g[6]]:
+            stats["bad"] += 1
+            rep.tie_broken(f"correspondence site/graphnode: model URL {list(ans)} vs implementation {g[6]!r} for a node with (fromstr, external, url, "
+                           f"visible, bound, parent visible) = {g[:6]} (case {k})",
+                           {"stream": "site", "case": k, "seed": r.get("seed"), "node": list(g), "model": list(ans)})
+    for gp in r.get("graph_pages", []):
+        stats["graph_pages"] += 1
+        if gp.count("/") != 1:
+            stats["bad"] += 1
+            rep.tie_broken(f"correspondence site/graphpage: {gp} carries an inline graph but does not lie one directory below the root "
+                           f"(the model's host templates all do) (case {k})", {"stream": "site", "case": k, "seed": r.get("seed"), "page": gp})
     # --- round 6: what every real PageNode / PagetreePage of the run calls its page (link URL, file written, search index URL)
     #     vs the model's names under the regenerated namings
     for n, ans in zip(r.get("page_nodes", []), drv_answers.get("pagename", [])):
@@ -1274,6 +1352,12 @@ def run(tier: str, seed: int, replay: str | None = None) -> int:
     if pc[2] != "1":
         rep.tie_broken(f"PagetreePage.writeout: the `copy_subdir` loop runs `{pc[0]}`, the `files` loop `{pc[1]}`: a page's own copy_subdir "
                        f"directories / the files of a page directory are not copied for every page that links them")
+    gc = drv.call("c09.graphcheck")
+    if gc[0] != "1":
+        rep.tie_broken(f"graph node URLs: prefix `{gc[1]}/`, visible gate {gc[2]}, binding gate {gc[3]}, foreign URLs kept {gc[4]}, templates that "
+                       f"print a graph with the depth of their pages {gc[5:]}: a node URL does not resolve from every page that prints a graph, "
+                       f"or a hidden entity gets a clickable node (GraphUrl.tablesOk = false on the regenerated tables)")
+    table_variants.update({"graph_parent_dir": gc[1], "graph_hosts": gc[5:]})
     pn = drv.call("c09.pagenamecheck")
     if pn[3] != "1":
         rep.tie_broken(f"static pages: PageNode.url names the page's file by `{pn[0]}`, PagetreePage.outfile by `{pn[1]}`, PagetreePage.loc "
@@ -1321,7 +1405,7 @@ def run(tier: str, seed: int, replay: str | None = None) -> int:
             "aborted_runs": {}, "location": {}, "doc_style": {}, "summaries": {}, "assets": {}, "footnotes": {},
             "page_tree": {}}
     stats = {"geturl": 0, "nav_pages": 0, "bad": 0, "strlink": 0, "str_exc": 0, "list_members": 0, "readmore": 0,
-             "page_copies": 0, "page_copy_files": 0, "page_names": 0, "page_names_dotted": 0, "asset_pages": 0, "asset_files": 0, "aliases": 0, "footnotes": 0}
+             "page_copies": 0, "page_copy_files": 0, "page_names": 0, "page_names_dotted": 0, "graph_nodes": 0, "graph_nodes_with_url": 0, "graph_nodes_hidden": 0, "graph_pages": 0, "asset_pages": 0, "asset_files": 0, "aliases": 0, "footnotes": 0}
     n_links = n_internal = 0
     distinct = set()
     samples = []
@@ -1376,6 +1460,9 @@ def run(tier: str, seed: int, replay: str | None = None) -> int:
                     q += [it["name"], str(len(it["files"]))] + it["files"]
                 q += [str(len(n["files"]))] + n["files"]
                 reqs.append(q)
+            index.append((r["k"], "graphnode", len(reqs), len(r.get("graph_nodes", []))))
+            for g in r.get("graph_nodes", []):
+                reqs.append(["c09.graphnode"] + list(g[:6]))
             index.append((r["k"], "pagename", len(reqs), len(r.get("page_nodes", []))))
             for n in r.get("page_nodes", []):
                 reqs.append(["c09.pagename", n["loc"] or ".", n["stem"], "."])
@@ -1393,7 +1480,7 @@ def run(tier: str, seed: int, replay: str | None = None) -> int:
         _tick(f"model batch ({len(reqs)} requests)")
         by_site: dict[int, dict] = {}
         for k, name, start, n in index:
-            by_site.setdefault(k, {})[name] = answers[start] if name not in ("geturl", "strlink", "readmore", "pagecopy", "pagename") else answers[start:start + n]
+            by_site.setdefault(k, {})[name] = answers[start] if name not in ("geturl", "strlink", "readmore", "pagecopy", "pagename", "graphnode") else answers[start:start + n]
         # ---- evaluate
         for r in results:
             k = r["k"]
@@ -1491,14 +1578,16 @@ def run(tier: str, seed: int, replay: str | None = None) -> int:
     n_ok = sum(1 for r in results if r.get("rc") == 0)
     rep.coverage.update(
         evaluations=ev_micro + len(results) + stats["geturl"] + stats["strlink"] + stats["nav_pages"] + stats["readmore"]
-        + stats["page_copies"] + stats["asset_pages"] + stats["footnotes"] + stats["page_names"],
+        + stats["page_copies"] + stats["asset_pages"] + stats["footnotes"] + stats["page_names"] + stats["graph_nodes"],
         distinct_nontrivial=len(distinct),
         rule="a site case = generated project (shape x options x static pages x doc links) run through ford end-to-end; "
              "distinct by digest of (entity counts as FORD sees them, option combination, page tree present, how the project directory "
              "is reached, icon type / MathJax configuration / kinds of files next to the static pages); all of them reach the mechanism",
         samples=samples,
         traces_validated_against_impl=ev_micro + stats["geturl"] + stats["strlink"] + stats["nav_pages"] + stats["readmore"] + n_ok
-        + stats["page_copies"] + stats["asset_pages"] + stats["footnotes"] + stats["page_names"],
+        + stats["page_copies"] + stats["asset_pages"] + stats["footnotes"] + stats["page_names"] + stats["graph_nodes"],
+        graph_nodes_compared=stats["graph_nodes"], graph_nodes_with_url=stats["graph_nodes_with_url"],
+        graph_nodes_of_hidden_entities=stats["graph_nodes_hidden"], pages_with_inline_graph_checked=stats["graph_pages"],
         static_pages_compared_names=stats["page_names"], static_pages_with_dotted_stem_compared=stats["page_names_dotted"],
         static_pages_compared_copies=stats["page_copies"], files_below_page_compared=stats["page_copy_files"],
         pages_compared_asset_links=stats["asset_pages"], asset_files_compared=stats["asset_files"],
